@@ -94,3 +94,206 @@ def r17_option_map(text, log):
 
 
 RULES = {"R17": r17_option_map}
+
+
+# ----------------------------------------------------------------------------------------------------------------------
+R9Q_DOC = """R9q  inline a local closure whose body uses `?`, at call sites of the form `f(args)?`.
+
+    let f = |p: T, q: U| -> Result<_> { B };   ...   f(a, b)?
+        ->   (definition removed)              ...   ({ let p = a; let q = b; B })?
+
+Beta-reduction of a local, non-escaping, non-recursive closure (as core-extra R9), extended to bodies containing `?`:
+a `?` inside the closure returns `Err(From::from(e))` from the closure, and the call-site `?` then returns that error from
+the enclosing function; after inlining, the inner `?` returns the converted error from the enclosing function directly and
+the value of the block is unwrapped by the call-site `?`, which is kept.  Side conditions (otherwise RewriteError -> undecided):
+every use of `f` inside the block that defines it is a direct call immediately followed by `?`; `f` is not used outside that
+block (a later, separate `let f = ...` in another block is a different closure and is handled on its own); the body contains
+no `return` and does not mention `f`; parameters are plain `ident[: Type]` (the parameter type annotations only steer inference and are dropped, an explicit
+return type is kept as the annotated type of the block's value: rustc re-checks the inlined text against the call arguments); no identifier the
+body uses freely is re-bound between definition and the end of the block.  Difference that remains: the error conversion
+path (`e -> closure error type -> function error type` becomes `e -> function error type`); both are `From` conversions
+chosen by rustc, and no contract in the units speaks about `Err` values.
+"""
+
+
+def r9q_closure_inline_try(text, log):
+    from ..rewrite import RewriteError, split_args, span_text
+    from .isearch import _find_closure_def, _parse_params, _pattern_idents, _KW
+    start_tok = 0
+    guard = 0
+    while True:
+        guard += 1
+        if guard > 50:
+            raise RewriteError("R9q: too many closures")
+        st = sig(lex(text))
+        d = _find_closure_def(st, start_tok)
+        if d is None:
+            return text
+        let_i, name_i, bar_i = d
+        name = st[name_i].text
+        params, close_bar = _parse_params(text, st, bar_i)
+        j = close_bar + 1
+        ret_ty = None
+        if st[j].text == "-" and st[j + 1].text == ">":
+            # explicit return type: skip to the body block
+            r0 = j + 2
+            while j < len(st) and st[j].text != "{":
+                if st[j].kind == "punct" and st[j].text in "([":
+                    j = match_close(st, j) + 1
+                    continue
+                j += 1
+        if st[j].text != "{":
+            raise RewriteError("R9q: closure `%s` body is not a block" % name)
+        if st[close_bar + 1].text == "-":
+            ret_ty = text[st[r0].start:st[j - 1].end]
+        b0 = j
+        b1 = match_close(st, b0)
+        if st[b1 + 1].text != ";":
+            raise RewriteError("R9q: closure block is not the whole initialiser")
+        semi = b1 + 1
+        # enclosing block of the definition: the nearest `{` before let_i that is still open
+        depth = 0
+        k = let_i - 1
+        enc_open = None
+        while k >= 0:
+            if st[k].text == "}":
+                depth += 1
+            elif st[k].text == "{":
+                if depth == 0:
+                    enc_open = k
+                    break
+                depth -= 1
+            k -= 1
+        if enc_open is None:
+            raise RewriteError("R9q: no enclosing block")
+        enc_close = match_close(st, enc_open)
+        body_toks = st[b0:b1 + 1]
+        pnames = {p[0] for p in params}
+        for t in body_toks:
+            if t.kind == "ident" and t.text == "return":
+                raise RewriteError("R9q: closure `%s` contains `return`" % name)
+            if t.kind == "ident" and t.text == name:
+                raise RewriteError("R9q: closure `%s` mentions itself" % name)
+        free = set()
+        for k, t in enumerate(body_toks):
+            if t.kind != "ident" or t.text in _KW or t.text in pnames:
+                continue
+            prev = body_toks[k - 1].text if k > 0 else ""
+            if prev == "." or t.text[0].isupper():
+                continue  # field / method name; CamelCase or CONSTANT path segment (types, variants, constants: not captured locals)
+            nxt_ = body_toks[k + 1].text if k + 1 < len(body_toks) else ""
+            if nxt_ == ":" and k + 2 < len(body_toks) and body_toks[k + 2].text == ":":
+                continue  # module path segment
+            free.add(t.text)
+        calls = []
+        for k in range(semi + 1, enc_close):
+            t = st[k]
+            if t.kind == "ident" and t.text == name:
+                prev = st[k - 1].text
+                nxt = st[k + 1].text
+                if nxt != "(" or prev in (".", ":", "&", "let", "mut", "fn"):
+                    raise RewriteError("R9q: closure `%s` escapes or is shadowed inside its block" % name)
+                c = match_close(st, k + 1)
+                if st[c + 1].text != "?":
+                    raise RewriteError("R9q: call of `%s` not followed by `?`" % name)
+                calls.append(k)
+        free -= _pattern_idents(st, b0, b1 + 1)  # names bound inside the body are not captures
+        rebound = _pattern_idents(st, semi + 1, enc_close) & free
+        if rebound:
+            raise RewriteError("R9q: closure `%s` captures %s which is re-bound later" % (name, sorted(rebound)))
+        inner = text[st[b0].end:st[b1].start]
+        if not calls:
+            text = text[:st[let_i].start] + text[st[semi].end:]
+            log["R9q closure-inline"] = log.get("R9q closure-inline", 0) + 1
+            continue
+        k = calls[-1]
+        o = k + 1
+        c = match_close(st, o)
+        args = [span_text(text, st, a, b) for a, b in split_args(st, o, c)]
+        if len(args) != len(params):
+            raise RewriteError("R9q: call of `%s` with %d arguments, closure has %d parameters" % (name, len(args), len(params)))
+        parts = ["let %s%s = %s;" % ("mut " if m else "", p, a) for (p, m, ty), a in zip(params, args)]
+        if ret_ty:
+            # keep the explicit return type as the type of the block's value (it fixes the error type for inference)
+            rep = "({ " + " ".join(parts) + " let vx_%s_r: %s = { %s }; vx_%s_r })" % (name, ret_ty, inner.strip(), name)
+        else:
+            rep = "({ " + " ".join(parts) + " " + inner.strip() + " })"
+        text = text[:st[k].start] + rep + text[st[c].end:]
+        log["R9q closure-inline"] = log.get("R9q closure-inline", 0) + 1
+        if len(calls) == 1:
+            text = text[:st[let_i].start] + text[st[semi].end:]
+
+
+RULES["R9q"] = r9q_closure_inline_try
+
+
+# ----------------------------------------------------------------------------------------------------------------------
+R4K_DOC = """R4k  consuming iteration over a Vec named by a plain identifier, with a (nested) tuple-of-identifiers pattern.
+
+    for (h, (a, b)) in V { B }
+        ->  { let vx_vK = V; let mut vx_nK = 0;
+              while vx_nK < vx_vK.len() { let vx_eK = &vx_vK[vx_nK]; let h = vx_eK.0; let a = vx_eK.1.0; let b = vx_eK.1.1; vx_nK += 1; B } }
+
+`IntoIterator for Vec<T>` yields V[0], V[1], ... by value; V is moved (kept: `let vx_vK = V;`).  The components are bound by
+copy out of a shared reference, which rustc accepts only for `Copy` component types — for those, copy and move coincide.
+The counter is incremented before the body (so `continue` would keep its meaning).  K numbers the rewritten loops in textual order.
+"""
+
+
+def _tuple_bindings(st, lo, hi, base):
+    """st[lo] == '(' ... st[hi] == ')' : flat list of (ident, access-path) for a nested tuple pattern of identifiers, or None"""
+    out = []
+    j = lo + 1
+    idx = 0
+    while j < hi:
+        t = st[j]
+        if t.text == "(":
+            c = match_close(st, j)
+            sub = _tuple_bindings(st, j, c, "%s.%d" % (base, idx))
+            if sub is None:
+                return None
+            out += sub
+            j = c + 1
+        elif t.kind == "ident" and t.text not in ("mut", "ref", "_"):
+            out.append((t.text, "%s.%d" % (base, idx)))
+            j += 1
+        else:
+            return None
+        if j < hi:
+            if st[j].text != ",":
+                return None
+            j += 1
+        idx += 1
+    return out
+
+
+def r4k_vec_into_for(text, log):
+    from ..rewrite import _for_loops
+    k = 0
+    while True:
+        st = sig(lex(text))
+        done = True
+        for i, in_idx, b in _for_loops(st):
+            if st[i + 1].text != "(" or match_close(st, i + 1) != in_idx - 1:
+                continue
+            if b != in_idx + 2 or st[in_idx + 1].kind != "ident":
+                continue
+            v = st[in_idx + 1].text
+            k += 1
+            vv, n, e = "vx_v%d" % k, "vx_n%d" % k, "vx_e%d" % k
+            binds = _tuple_bindings(st, i + 1, in_idx - 1, e)
+            if binds is None or vv in text:
+                continue
+            c = match_close(st, b)
+            body = text[st[b].end:st[c].start]
+            bind = "let %s = &%s[%s]; " % (e, vv, n) + " ".join("let %s = %s;" % (x, p) for x, p in binds)
+            new = "{ let %s = %s; let mut %s = 0; while %s < %s.len() { %s %s += 1; %s} }" % (vv, v, n, n, vv, bind, n, body)
+            text = text[:st[i].start] + new + text[st[c].end:]
+            log["R4k vec-into-for -> while"] = log.get("R4k vec-into-for -> while", 0) + 1
+            done = False
+            break
+        if done:
+            return text
+
+
+RULES["R4k"] = r4k_vec_into_for
